@@ -13,9 +13,37 @@ package pdf417
 //@   attr fresh_result0 config("n") 0 929
 //@   ensures result1 == nil
 
+// ISO/IEC 15438 error correction: the check codewords are the complements of the remainder of
+// data(x)*x^k divided by the generator g(x) over GF(929), computed by the standard's division
+// circuit. rs929(.., i, j) is register cell j (coefficient of x^j) after the first i data codewords:
+//   t = (d[i-1] + E[i-1][k-1]) mod 929 ;  E[i][j] = (E[i-1][j-1] + 929 - (t*g[j]) mod 929) mod 929
+// (E[i-1][-1] = 0). The generator coefficients g are correctionFactors[level], compared with
+// prod(x - 3^i) mod 929 by the table lemma pdf417/tables.
+//@ specdef rs929(d map[int]int, doff int, g map[int]int, goff int, k int, i int, j int) int = (i <= 0) ? 0 : ((((j > 0) ? rs929(d, doff, g, goff, k, i-1, j-1) : 0) + 929 - (((d[doff+i-1] + rs929(d, doff, g, goff, k, i-1, k-1)) % 929) * g[goff+j]) % 929) % 929)
+//@ define compl929(v int) int = (v > 0) ? (929 - v) : v
+//@ define reg929(data []int, factors []int, k int, i int, j int) int = rs929(arrof(data), data.off, arrof(factors), factors.off, k, i, j)
+
 //@ func (securitylevel).Compute
 //@   abstract
 //@   attr fresh_result (1<<(level+1)) 0 929
+//@   attr split level 0 1 2 3 4 5 6 7 8
 //@   requires level <= 8
 //@   requires forall i int :: 0 <= i && i < len(data) ==> 0 <= data[i] && data[i] < 929
-//@   ensures len(result) == (1 << (level + 1))
+//@   ensures len(result) == (1 << (level + 1)) && fresh(result)
+//@   ensures forall m int :: 0 <= m && m < len(result) ==> 0 <= result[m] && result[m] < 929
+//@   ensures forall m int :: 0 <= m && m < len(result) ==> result[m] == compl929(reg929(data, correctionFactors[level], len(result), len(data), len(result)-1-m))
+//@   loop 1 invariant -1 <= rangeindex && rangeindex < len(data) && fresh(ecWords) && len(ecWords) == count && count == (1 << (level + 1)) && factors == correctionFactors[level]
+//@   loop 1 invariant forall j int :: 0 <= j && j < count ==> 0 <= ecWords[j] && ecWords[j] < 929
+//@   loop 1 invariant forall q int :: 0 <= q && q < len(data) ==> 0 <= data[q] && data[q] < 929
+//@   loop 1 invariant forall j int :: 0 <= j && j < count ==> ecWords[count-1-j] == reg929(data, factors, count, rangeindex+1, j)
+//@   loop 2 invariant 0 <= rangeindex && rangeindex < len(data) && fresh(ecWords) && len(ecWords) == count && count == (1 << (level + 1)) && factors == correctionFactors[level]
+//@   loop 2 invariant -1 <= i && i <= count-1 && value == data[rangeindex] && temp == (value + reg929(data, factors, count, rangeindex, count-1)) % 929
+//@   loop 2 invariant forall j int :: 0 <= j && j < count ==> 0 <= ecWords[j] && ecWords[j] < 929
+//@   loop 2 invariant forall q int :: 0 <= q && q < len(data) ==> 0 <= data[q] && data[q] < 929
+//@   loop 2 invariant forall j int :: i < j && j < count ==> ecWords[count-1-j] == reg929(data, factors, count, rangeindex+1, j)
+//@   loop 2 invariant forall j int :: 0 <= j && j <= i ==> ecWords[count-1-j] == reg929(data, factors, count, rangeindex, j)
+//@   loop 2 decreases i + 1
+//@   loop 3 invariant -1 <= rangeindex && rangeindex < count && fresh(ecWords) && len(ecWords) == count && count == (1 << (level + 1)) && factors == correctionFactors[level]
+//@   loop 3 invariant forall m int :: 0 <= m && m <= rangeindex ==> ecWords[m] == compl929(reg929(data, factors, count, len(data), count-1-m))
+//@   loop 3 invariant forall m int :: rangeindex < m && m < count ==> ecWords[m] == reg929(data, factors, count, len(data), count-1-m)
+//@   loop 3 invariant forall m int :: 0 <= m && m < count ==> 0 <= ecWords[m] && ecWords[m] < 929
